@@ -1,6 +1,7 @@
 import SlugModel.Lemmas.TrEq_joinSubPath
 import SlugModel.Lemmas.TrEq_normalizeSubpath
 import SlugModel.Lemmas.TrEq_finalSourceAddr
+import SlugModel.Props.C11
 /-!
 # C11 (tie by translation)
 
@@ -29,5 +30,48 @@ sub-path of the remote address the registry named) is the sub-path of the transl
 theorem C11_tie_finalSourceAddr (s real : Str × Str) :
     Gen.finalSourceAddr s real = (real.1, finalSourceSub s.2 real.2) :=
   gen_finalSourceAddr s real
+
+/-! ### The property, stated over the translated function -/
+
+/-- **C11_gen_joinSubPath_spec.** The Go function `joinSubPath` (sourceaddrs/subpath.go), as translated: for
+every valid base sub-path `sub` and every relative path `rel` (non-empty, not rooted; any depth, any mix of
+names, `.` and `..`), the call succeeds exactly when applying the segments of `rel` one by one to the segment
+stack of `sub` (`""`/`.` do nothing, a name is pushed, `..` pops) never pops the empty stack — that is, never
+climbs above the package root — and then it returns the printed stack; otherwise it returns the error. -/
+theorem C11_gen_joinSubPath_spec (sub rel : Str) (ha : ValidSub sub) (hb : RelLike rel) :
+    Gen.joinSubPath sub rel =
+      (match applyRel (some (segsOf sub).reverse) (splitOn '/' rel) with
+       | some st => (printStack st, false)
+       | none => ([], true)) := by
+  rw [gen_joinSubPath, C11_join_spec sub rel ha hb]
+  unfold specJoin
+  cases applyRel (some (segsOf sub).reverse) (splitOn '/' rel) <;> rfl
+
+/-- **C11_gen_joinSubPath_spec_iff.** The same, read as an equivalence: the translated `joinSubPath` returns
+`r` without error exactly when the segment stack does not underflow and `r` is its printed form. -/
+theorem C11_gen_joinSubPath_spec_iff (sub rel r : Str) (ha : ValidSub sub) (hb : RelLike rel) :
+    Gen.joinSubPath sub rel = (r, false) ↔
+      ∃ st, applyRel (some (segsOf sub).reverse) (splitOn '/' rel) = some st ∧ r = printStack st := by
+  rw [C11_gen_joinSubPath_spec sub rel ha hb]
+  cases applyRel (some (segsOf sub).reverse) (splitOn '/' rel) with
+  | none => simp
+  | some st => simp [eq_comm]
+
+/-- **C11_gen_joinSubPath_never_escapes.** Whatever the two arguments, a result the translated Go function
+`joinSubPath` returns without error is the empty sub-path (the package root) or a normalised sub-path: it is
+accepted by `fs.ValidPath`, is not `.`, and none of its `/`-separated segments is empty, `.` or `..` — so it
+cannot denote anything above the package root. -/
+theorem C11_gen_joinSubPath_never_escapes (sub rel r : Str) (h : Gen.joinSubPath sub rel = (r, false)) :
+    ValidSub r ∧ ∀ e ∈ segsOf r, e ≠ [] ∧ e ≠ dot ∧ e ≠ dotdot := by
+  rw [gen_joinSubPath] at h
+  have hv : ValidSub r := by
+    cases hj : joinSubPath sub rel with
+    | none => rw [hj] at h; simp at h
+    | some x =>
+      rw [hj] at h
+      have hx : x = r := by simpa using h
+      subst hx
+      exact C11_never_escapes sub rel x hj
+  exact ⟨hv, validSub_allPlain r hv⟩
 
 end Slug
